@@ -37,17 +37,36 @@ func genC13(r *Rand, tier string, ord int) *Trial {
 	switch form {
 	case "snps":
 		w := r.Range(1, 16)
-		ref, _, q := genUpdownAln(r, w, 0, r.Range(1, 9))
+		nq := r.Range(1, 9)
+		if r.P(0.12) {
+			nq = r.Range(25, 110)
+		}
+		ref, _, q := genUpdownAln(r, w, 0, nq)
 		if r.P(0.3) {
 			q = genAln(r, ref, alnSpec{W: w, N: r.Range(1, 9), Prof: -1, SNP: 0.2, Prefix: "q", Dup: 0.2})
 		}
-		c = &Case{Cmd: "snps", Files: map[string]string{"ref": ">ref\n" + ref + "\n", "query": q.FASTA(genLayout(r))}}
+		lay := genLayout(r)
+		if r.P(0.003) { // widths around powers of two up to 2^17 (gen.go, scale): shared mutations near the end
+			w = scaleWidth(r)
+			ref = genRefSeq(r, w)
+			base := tailSNPs(r, ref, ref)
+			q = genAln(r, base, alnSpec{W: w, N: r.Range(2, 5), Prof: profACGT, SNP: 0.0005, Prefix: "q", Dup: 0.3})
+			for i := range q.Seqs {
+				if r.Bool() {
+					q.Seqs[i] = tailSNPs(r, ref, q.Seqs[i])
+				}
+			}
+			lay.Width = r.PickInt(0, 0, 60, 80)
+		}
+		c = &Case{Cmd: "snps", Files: map[string]string{"ref": ">ref\n" + ref + "\n", "query": q.FASTA(lay)}}
 		c.Opts.HardGaps = r.P(0.3)
 	case "variants-gb", "variants-gff":
 		w := r.Range(6, 30)
 		nseq := r.Range(1, 9)
 		if r.P(0.05) {
 			nseq = r.Range(49, 70) // right at the 50+threads channel capacities
+		} else if r.P(0.12) {
+			nseq = r.Range(25, 110) // denominators for which count/n, threshold*n and count*(1/n) round differently
 		}
 		ref, _, q := genUpdownAln(r, w, 0, nseq)
 		an := genAnno(r, ref, true, 0.2)
@@ -97,6 +116,9 @@ func genC13(r *Rand, tier string, ord int) *Trial {
 		n = 10
 	}
 	t.Runs = append([]RunCfg{genRunCfg(r)}, genRunCfgs(r, n)...)
+	if len(c.Files["query"]) > 50000 {
+		wideRuns(t.Runs)
+	}
 	return t
 }
 
